@@ -37,7 +37,7 @@ def describe(tier):
         'included and required to raise) from 5 start states (empty; AND; NOT chain + repeated operand + block + output '
         'that is an input; after a right-connection; GT(x,x)/LNOT with repeated outputs). Invariant on every distinct '
         'state: operands/outputs exist, users index == operand multiset, inputs == INPUT gates, acyclic, top_sort both '
-        'directions complete and ordered, evaluate_full_circuit/dfs complete, blocks name existing gates; copy monitor: '
+        'directions complete and ordered, evaluate_full_circuit/get_truth_table/dfs complete and equal to the reference evaluation of the current netlist (the circuit is queried before every mutation, so remembered results would be stale), blocks name existing gates; copy monitor: '
         'copy == original, blocks equal, mutating either side leaves the other unchanged.',
         'bounds': {'quick': 'depth 2 from each start state, full menu',
                    'thorough': 'depth 3: step 1 full menu, step 2 one naming option for compositions, step 3 all non-composition calls'}[tier],
@@ -100,6 +100,19 @@ def monitor(c, start_name, hist, acc):
         full = c.evaluate_full_circuit({i: False for i in c.inputs})
         if set(full) != set(net.gates):
             acc.violation(f'{last}/evaluate_full_circuit-incomplete', case, sorted(full))
+        else:
+            # values, not only keys: the library's answer after the mutation must be that of the current netlist
+            ref = net.tables()
+            nin = len(net.inputs)
+            for asg, row in (({i: False for i in c.inputs}, 0), ({i: True for i in c.inputs}, (1 << nin) - 1)):
+                vals = c.evaluate_full_circuit(asg)
+                bad = [g for g in net.gates if vals.get(g) is not bool((ref[g] >> row) & 1)]
+                if bad:
+                    acc.violation(f'{last}/evaluate_full_circuit-wrong-values-after-mutation', case, f'gates {bad[:3]}')
+                    break
+            tt = c.get_truth_table()
+            if [refmodel.tt_from_rows(r) for r in tt] != [ref[o] for o in net.outputs]:
+                acc.violation(f'{last}/get_truth_table-wrong-after-mutation', case, '')
         ds = [g.label for g in c.dfs(list(c.gates))]
         if sorted(ds) != sorted(net.gates):
             acc.violation(f'{last}/dfs-incomplete', case, ds)
